@@ -198,6 +198,18 @@ add(
     "DESIGN.md §4 C17",
 )
 
+add(
+    "C19", "fault_enumeration",
+    "Hypothesis over invocation sequences x per-identifier network plans served by a loopback HTTP stub; tree snapshot before/after + server log + exit status + follow-up lint",
+    "About 2400 generated histories of 1..3 download invocations per quick run: explicit identifiers (valid, deprecated, 'ID+', unknown, LicenseRef- "
+    "with --source file / directory / directory without the file), --all, -o; LICENSES/ absent, empty or already holding the target; from the root, a "
+    "sub-directory, inside LICENSES/ (with and without Git) or outside with --root; each identifier answered with 200, 404, 500, a connection reset or "
+    "a truncated body.  No pre-existing byte may change, only LICENSES/<id>.txt (or -o) may appear and must hold exactly the served / copied bytes, a "
+    "failed identifier leaves no file and a non-zero exit status, LicenseRef- never reaches the server, and an exit-0 --all leaves no missing licence.",
+    "The network is a loopback stub (reuse.download._SPDX_REPOSITORY_BASE_URL is redirected in-process); transport errors after the response started end the batch with a traceback and non-zero status, which the statement allows.",
+    "DESIGN.md §4 C19",
+)
+
 NOT_BUILT = "check not built yet in this revision of /verif (planned in DESIGN.md §4; property-based testing applies)"
 
 
